@@ -25,12 +25,13 @@ func init() {
 				"called from lexText, lexLeftDelim, lexRightDelim and lexComment; in the delimiter functions only under the trim-marker fact, in lexText only for the trimLength bytes computed under the " +
 				"left-trim-marker test after the pending text was emitted; the parser drops an itemText token without a node only in the header loop of parseTemplate under TrimSpace(val) == \"\". " +
 				"(C03.space) the trim predicate isSpace compares with exactly {space, tab, CR, LF} and both trim-length helpers use it. (C03.delims) the lexer reads delimiters only from its " +
-				"configured fields; the default* constants are referenced only by the lexer constructor. (C03.next) lexText continues at the nearer of the next action candidate and the next comment candidate: the selection code, which touches the two positions by comparisons only, is executed on one representative of every ordering of absent/present positions.",
+				"configured fields; the default* constants are referenced only by the lexer constructor. (C03.next) lexText continues at the nearer of the next action candidate and the next comment candidate: the selection code, which touches the two positions by comparisons only, is executed on one representative of every ordering of absent/present positions. (C03.drop, continued) white-space-only text that parseTemplate consumes while looking for extends/import clauses is saved and built into text nodes again before the body is parsed, unless such a clause was seen.",
 			NotDecided:  "the index arithmetic of lexText's search for the next delimiter/comment start; ambiguity between user-chosen delimiters; that exactly the adjacent run is trimmed (the value of trimLength).",
 			Assumptions: []string{"strings.TrimLeftFunc/TrimRightFunc/HasPrefix behave as documented"},
 			Trusted:     commonTrusted,
 		},
 		Mutants: []Mutant{
+			{Name: "skipped leading white space never put back (original defect)", File: "parse.go", Old: "\tif !sawClause {\n\t\tfor _, text := range skipped {", New: "\tif false {\n\t\tfor _, text := range skipped {", Rule: "C03.drop"},
 			{Name: "whitespace-only yield content is not rendered (agent seed C03/2, reduced)", File: "eval.go", Old: "\tmycontent := st.content\n\tif content != nil {", New: "\tmycontent := st.content\n\tif content != nil && !IsEmptyTree(content) {", Rule: "C03.identity"},
 			{Name: "custom right delimiter without its trim form (original defect)", File: "lex.go", Old: "\t\tl.rightDelim = rightDelim\n\t\tl.trimRightDelim = rightTrimMarker + rightDelim\n", New: "\t\tl.rightDelim = rightDelim\n", Rule: "C03.coupled"},
 			{Name: "trim form built from the default delimiter", File: "lex.go", Old: "\t\tl.trimRightDelim = rightTrimMarker + rightDelim\n", New: "\t\tl.trimRightDelim = rightTrimMarker + defaultRightDelim\n", Rule: "C03."},
@@ -361,6 +362,11 @@ func runC03(c *an.Ctx) {
 			return true
 		})
 		c.Check(ok && nCont == 1, "C03.drop", "(*Template).parseTemplate/header-whitespace", pt.Pos(), "only whitespace-only text between header clauses is skipped", "parseTemplate skips tokens other than whitespace-only text next to the leading extends/import clauses")
+	}
+	// … and what is skipped there is put back unless a clause was seen: white space in front of the content of
+	// a template without extends/import belongs to the output
+	if pt := c.Fn("C03.drop", "(*Template).parseTemplate"); pt != nil {
+		c03leadingKept(c, pt)
 	}
 	if ta := c.Fn("C03.drop", "(*Template).textOrAction"); ta != nil {
 		ok := false
@@ -971,4 +977,130 @@ func trimMeasure(f *an.Fn, e ast.Expr) (side, operand string, ok bool) {
 		return strings.ToLower(m[2]), m[1], true
 	}
 	return "", "", false
+}
+
+// c03leadingKept: on every path of parseTemplate that consumed a white-space-only text token while looking
+// for extends/import clauses and saw no such clause, a text node is built again (newText) before the body
+// is parsed or the function returns.
+func c03leadingKept(c *an.Ctx, pt *an.Fn) {
+	p := c.P
+	info := pt.Info()
+	var wsTests, clauseTests []ast.Expr
+	an.InspectOwn(pt, func(n ast.Node) bool {
+		b, ok := n.(*ast.BinaryExpr)
+		if !ok || b.Op != token.EQL {
+			return true
+		}
+		for _, pr := range [][2]ast.Expr{{b.X, b.Y}, {b.Y, b.X}} {
+			if call, ok := an.Unparen(pr[0]).(*ast.CallExpr); ok && an.CalleeName(info, call) == "strings.TrimSpace" {
+				if tv, ok := info.Types[pr[1]]; ok && tv.Value != nil && tv.Value.ExactString() == `""` {
+					wsTests = append(wsTests, b)
+				}
+			}
+			if id, ok := an.Unparen(pr[1]).(*ast.Ident); ok && (id.Name == "itemExtends" || id.Name == "itemImport") {
+				if _, isConst := an.ObjOf(info, id).(*types.Const); isConst {
+					clauseTests = append(clauseTests, b)
+				}
+			}
+		}
+		return true
+	})
+	key := "(*Template).parseTemplate/leading-whitespace-kept"
+	if len(wsTests) == 0 || len(clauseTests) == 0 {
+		c.Undecided("C03.drop", key, pt.Pos(), "the white-space test or the extends/import test of the header loop was not found")
+		return
+	}
+	lost := token.NoPos
+	var lostFacts []string
+	check := func(pos token.Pos, st *an.State) {
+		if st.Get("ws") != "" && st.Get("clause") == "" && !lost.IsValid() {
+			lost = pos
+			lostFacts = an.Facts(st)
+		}
+	}
+	// the loops that build text nodes again from a list: entering one puts back what was saved in that list (a
+	// token was saved, so the list is not empty)
+	flushLoops := map[ast.Expr]types.Object{}
+	an.InspectOwn(pt, func(n ast.Node) bool {
+		rs, ok := n.(*ast.RangeStmt)
+		if !ok {
+			return true
+		}
+		id, ok := an.Unparen(rs.X).(*ast.Ident)
+		if !ok {
+			return true
+		}
+		builds := false
+		ast.Inspect(rs.Body, func(m ast.Node) bool {
+			if call, ok := m.(*ast.CallExpr); ok && an.CalleeName(info, call) == "(*jet.Template).newText" {
+				builds = true
+			}
+			return true
+		})
+		if builds {
+			flushLoops[rs.X] = an.ObjOf(info, id)
+		}
+		return true
+	})
+	objName := func(o types.Object) string { return o.Name() + "@" + itoa(int(o.Pos())) }
+	x := p.NewExplorer(pt, an.Hooks{
+		Stmt: func(x *an.Explorer, n ast.Node, st *an.State) {
+			if e, ok := n.(ast.Expr); ok {
+				if o := flushLoops[e]; o != nil && st.Get("ws") == "saved:"+objName(o) {
+					st.Set("ws", "")
+				}
+			}
+		},
+		Assign: func(x *an.Explorer, lhs, rhs ast.Expr, stmt ast.Node, st *an.State) {
+			if st.Get("ws") != "1" || rhs == nil {
+				return
+			}
+			id, ok := an.Unparen(lhs).(*ast.Ident)
+			call, isCall := an.Unparen(rhs).(*ast.CallExpr)
+			if ok && isCall && an.CalleeName(info, call) == "builtin.append" && len(call.Args) == 2 {
+				if first, ok := an.Unparen(call.Args[0]).(*ast.Ident); ok && an.ObjOf(info, first) == an.ObjOf(info, id) {
+					st.Set("ws", "saved:"+objName(an.ObjOf(info, id)))
+				}
+			}
+		},
+		Branch: func(x *an.Explorer, cond ast.Expr, val bool, st *an.State) {
+			for _, t := range wsTests {
+				if cond.Pos() <= t.Pos() && t.End() <= cond.End() {
+					if v, known := x.Truth(t, st); known && v {
+						st.Set("ws", "1")
+					}
+				}
+			}
+			for _, t := range clauseTests {
+				if cond.Pos() <= t.Pos() && t.End() <= cond.End() {
+					if v, known := x.Truth(t, st); known && v {
+						st.Set("clause", "1")
+					}
+				}
+			}
+		},
+		Call: func(x *an.Explorer, call *ast.CallExpr, st *an.State) {
+			switch an.CalleeName(info, call) {
+			case "(*jet.Template).textOrAction", "(*jet.Template).itemList":
+				check(call.Pos(), st)
+			}
+		},
+		Return: func(x *an.Explorer, r *ast.ReturnStmt, st *an.State) { check(r.Pos(), st) },
+	})
+	x.Run(nil)
+	c.States += x.Visited
+	if x.Undecided != "" {
+		c.Undecided("C03.drop", key, pt.Pos(), "%s", x.Undecided)
+		return
+	}
+	for _, ex := range x.Exits {
+		if ex.Kind == an.ExitReturn && ex.Ret == nil {
+			check(pt.Body.End(), ex.State)
+		}
+	}
+	if lost.IsValid() {
+		c.Bad("C03.drop", key, lost, lostFacts, "parseTemplate reaches the body of the template (or returns) after skipping white-space-only text although no extends/import clause was seen, without building a text node for it: leading white space of a plain template is lost")
+	} else {
+		c.OK("C03.drop", key, pt.Pos(), "white space skipped while looking for extends/import is put back unless a clause was seen")
+	}
 }
